@@ -854,6 +854,8 @@ class SRPKeyExchange(KeyExchange):
 
     def makeServerKeyExchange(self, sigHash=None):
         """Create SRP version of Server Key Exchange"""
+        if self.clientHello.srp_username is None:
+            raise TLSUnknownPSKIdentity("Client did not provide SRP identity")
         srpUsername = bytes(self.clientHello.srp_username)
         #Get parameters from username
         try:
